@@ -133,9 +133,12 @@ def m_tok_to_tokens(it, n, a):
     return unit()
 
 
-@model(r'^<&?(String|&?str) as ToTokens>::to_tokens$')
+@model(r'^<&?(String|&?str) as ToTokens>::to_tokens$|^<(quote::__private::)?RepInterp<&?(String|&?str)> as ToTokens>::to_tokens$')
 def m_str_to_tokens(it, n, a):
-    deref(a[1]).toks.append(Tok('lit', ('string', deref(a[0]))))
+    v = deref(a[0])
+    if isinstance(v, Agg) and 'RepInterp' in str(v.path):
+        v = deref(v.fields[0])
+    deref(a[1]).toks.append(Tok('lit', ('string', v)))
     return unit()
 
 
@@ -1361,7 +1364,40 @@ def m_vec_from_elem(it, n, a):
 @model(r'^<&?(mut )?\{C\} as (std::ops::)?Fn(Mut|Once)?<.*>>::call(_mut|_once)?$')
 def m_closure_call(it, n, a):
     args = deref(a[1])
-    return it.call_closure(a[0], list(args.fields) if isinstance(args, Agg) else [args])
+    clo = a[0]
+    if deref(clo) is None:
+        # a closure without captures is zero-sized: MIR never assigns the local, the callee name says which closure it is
+        m_ = re.search(r'(\{closure@[^}]*\})', n)
+        if not m_:
+            raise Unsupported('call of an uninitialised closure value: ' + n)
+        clo = Closure(m_.group(1), [])
+    return it.call_closure(clo, list(args.fields) if isinstance(args, Agg) else [args])
+
+
+@model(r'^<&?(u8|u16|u32|u64|usize) as (std::ops::)?(Add|Sub|Mul|Div|Rem)<&?(u8|u16|u32|u64|usize)>>::(add|sub|mul|div|rem)$')
+def m_int_trait_ops(it, n, a):
+    """arithmetic through the operator traits (operands by reference): overflow / division by zero panic as in a debug build"""
+    ty = re.search(r'<&?(u8|u16|u32|u64|usize) as', n).group(1)
+    op = re.search(r'::(add|sub|mul|div|rem)$', n).group(1)
+    w = {'u8': 8, 'u16': 16, 'u32': 32, 'u64': 64, 'usize': 64}[ty]
+    x, y = deref(a[0]), deref(a[1])
+    if not (is_sym(x) or is_sym(y)):
+        if op in ('div', 'rem') and y == 0:
+            raise Panic('attempt to divide by zero')
+        r = {'add': lambda: x + y, 'sub': lambda: x - y, 'mul': lambda: x * y, 'div': lambda: x // y, 'rem': lambda: x % y}[op]()
+        if not (0 <= r < (1 << w)):
+            raise Panic(f'attempt to {op} with overflow')
+        return r
+    xz = x if is_sym(x) else z3.BitVecVal(x, w)
+    yz = y if is_sym(y) else z3.BitVecVal(y, w)
+    if op in ('div', 'rem'):
+        if it.truth(yz == 0):
+            raise Panic('attempt to divide by zero')
+        return z3.UDiv(xz, yz) if op == 'div' else z3.URem(xz, yz)
+    wide = {'add': z3.ZeroExt(w, xz) + z3.ZeroExt(w, yz), 'sub': z3.ZeroExt(w, xz) - z3.ZeroExt(w, yz), 'mul': z3.ZeroExt(w, xz) * z3.ZeroExt(w, yz)}[op]
+    if it.truth(z3.UGT(wide, z3.BitVecVal((1 << w) - 1, 2 * w))):
+        raise Panic(f'attempt to {op} with overflow')
+    return z3.Extract(w - 1, 0, wide)
 
 
 @model(r'^UniqueArena::<.*>::get$')
